@@ -117,3 +117,97 @@ Ltac prj := cbn [status join_thread detached lockh result main cb gh
                  set_status set_jt set_detached set_lockh set_result set_main set_cb set_gh unlock new_thread
                  runs garg got retv claimed rdone reaped desc_alloc desc_freed stack_alloc stack_freed stack_sz t_ret t_ready2
                  g_started g_returned g_claim g_rdone g_reap g_free_stack g_ready2 tnone ghost0 thread_main0] in *.
+
+(* ------------------------------------------------------------------------------------------ *)
+(** * The invariant (DESIGN.md B.7, written out) *)
+
+(** [p] is a program counter of a reaping operation (join / tryjoin / timedjoin / detach) on [t] *)
+Definition reap_pc (p : pc) (t : nat) : bool :=
+  match p with
+  | JLock x | JCheck x | JSusp x | JSpin x | JReap x | TLock x _ | TCheck x _ | TBusy x
+  | DFast x | DLock x | DCheck x | DSet x | DSpin x | DReap x => x =? t
+  | _ => false
+  end.
+
+(** the activity holds [t]'s spinlock *)
+Definition holds_main (p : pc) (j t : nat) : bool :=
+  match p with
+  | JCheck x | TCheck x _ | DCheck x | DSet x => x =? t
+  | FReadJoin => j =? t
+  | _ => false
+  end.
+Definition holds_cb (c : cbpc) (j t : nat) : bool :=
+  match c with
+  | CbJoinSet x => x =? t
+  | CbFreeStack | CbDetTest | CbReady2 => j =? t
+  | _ => false
+  end.
+Definition holds (th : thread) (j t : nat) : bool := holds_main (main th) j t || holds_cb (cb th) j t.
+
+Definition started_pc (p : pc) : bool := match p with NoThread | Created _ => false | _ => true end.
+Definition finishing_pc (p : pc) : bool := match p with FLock | FReadJoin | Finished => true | _ => false end.
+Definition fin_cb (c : cbpc) : bool := match c with CbFreeStack | CbDetTest | CbFreeDesc | CbReady2 => true | _ => false end.
+
+(** the status word is a function of the control state *)
+Definition status_spec (th : thread) : Z :=
+  if finish_complete th && negb (detached th) then ST_FREE_READY2
+  else match main th with JSusp _ => ST_BLOCKED | _ => ST_READY end.
+
+Definition stack_freed_spec (th : thread) : nat :=
+  match main th, cb th with
+  | Finished, (CbDetTest | CbFreeDesc | CbReady2 | CbNone) => 1
+  | _, _ => 0
+  end.
+
+Definition alloc_spec (th : thread) : nat := match main th with NoThread => 0 | _ => 1 end.
+
+Record Inv (s : state) : Prop := mkInv {
+  i_claim : forall j t, reap_pc (main (gt s j)) t = true ->
+              claimed (gh (gt s t)) = Some j /\ main (gt s t) <> NoThread;
+  i_cbmain : forall k x, cb (gt s k) = CbJoinSet x -> main (gt s k) = JSusp x;
+  i_cbfin : forall k, fin_cb (cb (gt s k)) = true -> main (gt s k) = Finished;
+  i_lock_a : forall t j, lockh (gt s t) = Some j -> holds (gt s j) j t = true;
+  i_lock_b : forall j t, holds (gt s j) j t = true -> lockh (gt s t) = Some j;
+  i_rdone : forall t, rdone (gh (gt s t)) = true ->
+              claimed (gh (gt s t)) <> None /\ forall j, reap_pc (main (gt s j)) t = false;
+  i_det_rdone : forall t, detached (gt s t) = true -> rdone (gh (gt s t)) = true;
+  i_fresh : forall k, main (gt s k) = NoThread -> gt s k = tnone;
+  i_status : forall k, status (gt s k) = status_spec (gt s k);
+  i_cbdet : forall k, (cb (gt s k) = CbFreeDesc -> detached (gt s k) = true) /\
+                      (cb (gt s k) = CbReady2 -> detached (gt s k) = false);
+  i_dset : forall j t, main (gt s j) = DSet t -> is_finished (status (gt s t)) = false;
+  i_reap : forall j t, main (gt s j) = JReap t \/ main (gt s j) = DReap t -> status (gt s t) = ST_FREE_READY2;
+  i_jt : forall t j, join_thread (gt s t) = Some j -> before_readjoin (gt s t) = true ->
+           suspended_on (gt s j) t = true;
+  i_runs : forall k, (started_pc (main (gt s k)) = false -> runs (gh (gt s k)) = 0 /\ got (gh (gt s k)) = None) /\
+                     (started_pc (main (gt s k)) = true -> runs (gh (gt s k)) = 1 /\ got (gh (gt s k)) = Some (garg (gh (gt s k))));
+  i_created : forall k cf, main (gt s k) = Created cf -> result (gt s k) = garg (gh (gt s k));
+  i_ledger : forall k, desc_alloc (gh (gt s k)) = alloc_spec (gt s k) /\ stack_alloc (gh (gt s k)) = alloc_spec (gt s k) /\
+                       stack_freed (gh (gt s k)) = stack_freed_spec (gt s k);
+  i_retv : forall k, finishing_pc (main (gt s k)) = true ->
+             retv (gh (gt s k)) = Some (result (gt s k)) /\ exists b, t_ret (gh (gt s k)) = Some b /\ b < clock s;
+  i_freed : forall t, desc_freed (gh (gt s t)) = reaped (gh (gt s t)) /\
+              (desc_freed (gh (gt s t)) = 0 \/
+               (desc_freed (gh (gt s t)) = 1 /\ rdone (gh (gt s t)) = true /\ finish_complete (gt s t) = true));
+  i_rdone_f : forall t, rdone (gh (gt s t)) = true -> detached (gt s t) = true \/ desc_freed (gh (gt s t)) = 1;
+  i_det_f : forall t, detached (gt s t) = true -> finish_complete (gt s t) = true -> desc_freed (gh (gt s t)) = 1;
+  i_ready2 : forall t, (status (gt s t) = ST_FREE_READY2 ->
+                         exists a b, t_ready2 (gh (gt s t)) = Some a /\ t_ret (gh (gt s t)) = Some b /\ b < a /\ a < clock s) /\
+                       (t_ready2 (gh (gt s t)) <> None -> status (gt s t) = ST_FREE_READY2);
+  i_joins : forall j t v tm, In (j, t, v, tm) (joins s) ->
+              status (gt s t) = ST_FREE_READY2 /\ retv (gh (gt s t)) = Some v /\
+              exists a, t_ready2 (gh (gt s t)) = Some a /\ a < tm /\ tm < clock s;
+  i_badwake : badwake s = false
+}.
+
+Lemma Inv_init n : Inv (init_state n).
+Proof.
+  constructor; intros; rewrite ?gt_init in *;
+    repeat match goal with
+           | H : context [if (?a =? ?b) then _ else _] |- _ => destruct (Nat.eqb_spec a b); subst
+           | |- context [if (?a =? ?b) then _ else _] => destruct (Nat.eqb_spec a b); subst
+           end;
+    cbn in *; try discriminate; try tauto; try (split; intros; try discriminate; try tauto; auto);
+    try (intuition discriminate).
+  all: try (split; [intros; discriminate|]; intros; discriminate).
+Qed.
